@@ -157,7 +157,13 @@ def post(ctx):
                  "operation list, so the model sees exactly the operations the server saw; random histories use one server each",
         exhaustive_families="quick: every history of length <= 3 over the 27-operation alphabet (2 documents x 4 texts, 3 configurations, "
                             "3 save uris, format, other) and every history of length 4 over a 12-operation sub-alphabet; thorough: length <= 4 "
-                            "and length 5 respectively; plus seeded random histories of length 8..40 over 3 documents x 15 texts x 5 configurations (one of which switches the templater)",
+                            "and length 5 respectively; every history of length <= 3 (thorough: 4) over the 9-operation violation-kind alphabet (documents whose lint "
+                            "result contains violations that come from no rule: malformed noqa directives inline with rule violations, several of them, "
+                            "a text the parser rejects; a configuration switch; format); for every (initial configuration, text) the 6-operation history "
+                            "open / format / switch configuration / save / change a second document to the text / format it; plus seeded random histories "
+                            "of length 8..40 over 3 documents x 49 texts (15 base texts + the 34 texts of the violation-kind family: 14 comment directives, "
+                            "well-formed and malformed, inline and on their own line, combinations, unparsable texts, a text with > 100 violations) "
+                            "x 5 configurations (one of which switches the templater)",
         configs=tables.get("configs"), texts=tables.get("texts_j"),
     ))
 
@@ -178,14 +184,15 @@ CFG = dict(
                "at zero-based positions, and the edit returned by a formatting request, applied per the LSP specification, yields "
                "exactly the fix. lint and fix are oracles (Section variables). C20_format_legacy_refuted and C20_legacy_templater_refuted witness the "
                "two defects repaired by e932172 and 17cf9d4. The model is tied to crates/lsp/src/lib.rs on every run by event-by-event comparison on histories.",
-    level_note="Trusted: Coq kernel; hand-written model (tie = sampled/exhaustive-bounded correspondence: ~41k histories quick, run as ~3.7k chains); the "
+    level_note="Trusted: Coq kernel; hand-written model (tie = sampled/exhaustive-bounded correspondence: ~42.5k histories quick, run as ~4k chains); the "
                "linter is an oracle tabulated by a fresh Linter per configuration file; serde/lsp-types (de)serialisation and the "
                "client's edit application are outside the model (the latter is specified in Gallina per LSP 3.17 and mirrored in the harness).",
     rule="histories of LSP operations (didOpen/didChange/didClose/didSave, rewriting <cwd>/.sqruff, textDocument/formatting, other "
          "methods) run on a fresh real LanguageServer in worker processes, one working directory each; exhaustive families and seeded "
          "random histories (see coverage.exhaustive_families). Each history is replayed on the Gallina model with lint/fix tables "
          "filled by the real linter and compared event by event (batches of one operation as multisets); the property itself is "
-         "observed directly (own uri->text map; last published diagnostics of every open document; edits applied in UTF-16 units = fix). "
+         "observed directly (own uri->text map; last published diagnostics of every open document — the complete list, including "
+         "diagnostics without a code for violations that come from no rule —; edits applied in UTF-16 units = fix). "
          "non-trivial history = a formatting request whose fix changes the number of lines, a configuration switch re-checking an "
          "open document, or an open document with non-empty final diagnostics; distinct = distinct (initial config, ops). "
          "Standard cases per (config, text): group format = the real edit applied by the Gallina apply_edits gives the fix (the property on "
